@@ -14,7 +14,7 @@ from .. import tdfref as R
 
 PROP = "C20"
 RULE = ("states = per-slot model lists (item identifiers, edited flags) for 2 (thorough 3) slots reached by BFS to depth "
-        "4 (quick) / 5 (thorough) per class; every op on every slot in every state; oracle on all slots after each op; "
+        "5 (quick) / 6 (thorough) per class; every op on every slot in every state; oracle on all slots after each op; "
         "non-trivial = both slots hold an object and they differ")
 ASSUMPTIONS = [
     "passing the *same* list object to two constructors is ordinary Python aliasing and is not in the alphabet",
@@ -458,7 +458,7 @@ def _shard(shard):
         return _reads_shard(shard)
     t, nslots = shard
     acc = core.Acc()
-    depth = {"quick": 4, "thorough": 5}[_shard.tier]
+    depth = {"quick": 5, "thorough": 6}[_shard.tier]
     m = ShareMachine(t, nslots)
     ohist.explore(m, acc, depth=depth, tag=f"{R.NAMES[t]}/{nslots}slots:", wit_extra={"type": t, "nslots": nslots}, copy_states=False,
                   max_states=30000, stop_on_violation=True)
